@@ -642,18 +642,52 @@ def lexer_failure_then_probe(rng):
     out.append(Case(mode='repl', stdin=J(mixed), limits=dict(steps=20000), meta=dict(gen='lexer-failure-then-probe', sample=False)))
     return out
 
+def identifier_targets_by_binding():
+    """statements that write to a plain identifier (READFILE, INPUT, GETRECORD, FOR, assignment) with the identifier bound in every way: global,
+    local, BYVAL parameter, BYREF parameter (argument a variable / an array element / a record field), BYREF forwarded BYREF again, not declared"""
+    out = []
+    writers = {
+        'readfile': (['READFILE "t.txt", tgt'], 'STRING', '"init"'),
+        'input': (['INPUT tgt'], 'STRING', '"init"'),
+        'getrecord': (['SEEK "r.dat", 1', 'GETRECORD "r.dat", tgt'], 'STRING', '"init"'),
+        'for': (['FOR tgt <- 3 TO 4', '  OUTPUT "it ", tgt', 'NEXT tgt'], 'INTEGER', '0'),
+        'assign': (['tgt <- tgt & "+"'], 'STRING', '"init"'),
+    }
+    for wname, (w, ty, init) in writers.items():
+        pre = ['TYPE Box', '  DECLARE f : %s' % ty, 'ENDTYPE', 'DECLARE g : %s' % ty, 'DECLARE arr : ARRAY[1:2] OF %s' % ty, 'DECLARE bx : Box',
+               'g <- %s' % init, 'arr[2] <- %s' % init, 'bx.f <- %s' % init, 'OPENFILE "t.txt" FOR READ', 'OPENFILE "r.dat" FOR RANDOM']
+        body = ['  ' + l for l in w] + ['  OUTPUT "inside ", tgt']
+        show = ['OUTPUT "g=", g, " arr=", arr[2], " f=", bx.f']
+        variants = {
+            'global': pre + ['PROCEDURE P()'] + [l.replace('tgt', 'g') for l in body] + ['ENDPROCEDURE', 'CALL P()', 'CALL P()'] + show,
+            'local': pre + ['PROCEDURE P()', '  DECLARE tgt : %s' % ty, '  tgt <- %s' % init] + body + ['ENDPROCEDURE', 'CALL P()', 'CALL P()'] + show,
+            'byval': pre + ['PROCEDURE P(BYVAL tgt : %s)' % ty] + body + ['ENDPROCEDURE', 'CALL P(g)', 'CALL P(arr[2])'] + show,
+            'byref-var': pre + ['PROCEDURE P(BYREF tgt : %s)' % ty] + body + ['ENDPROCEDURE', 'CALL P(g)', 'CALL P(g)'] + show,
+            'byref-element': pre + ['PROCEDURE P(BYREF tgt : %s)' % ty] + body + ['ENDPROCEDURE', 'CALL P(arr[2])', 'CALL P(arr[1])'] + show + ['OUTPUT arr[1]'],
+            'byref-field': pre + ['PROCEDURE P(BYREF tgt : %s)' % ty] + body + ['ENDPROCEDURE', 'CALL P(bx.f)'] + show,
+            'byref-forwarded': pre + ['PROCEDURE P(BYREF tgt : %s)' % ty] + body + ['ENDPROCEDURE', 'PROCEDURE Q(BYREF via : %s)' % ty, '  CALL P(via)', '  OUTPUT "q sees ", via', 'ENDPROCEDURE',
+                                      'PROCEDURE R(BYREF via2 : %s)' % ty, '  CALL Q(via2)', 'ENDPROCEDURE', 'CALL Q(g)', 'CALL R(arr[2])', 'CALL R(bx.f)'] + show,
+            'undeclared': pre + ['PROCEDURE P()'] + body + ['ENDPROCEDURE', 'CALL P()', 'CALL P()'] + show,
+            'main-undeclared': pre + [l.strip() for l in body] + show,
+        }
+        for vname, L in variants.items():
+            for ped in ('', '-p'):
+                out.append(Case(J(L), pedantic=ped, stdin=b'typed one\ntyped two\ntyped three\n', files={'t.txt': b'line one\nline two\nline three\n', 'r.dat': b'STRING 4 rec1\n'},
+                                limits=dict(steps=5000), meta=dict(gen='identifier-target-%s-%s' % (wname, vname), sample=False)))
+    return out
+
 def extra(pid, tier, rng):
     """the families each property's check runs in addition to its own generators"""
     if pid == 'C01':
         c = alias_then_replace() + shadowed_types() + deref_node_reuse() + far_seek() + far_dates_output() + far_dates_files()[0] + pedantic_tail_with_files() \
             + array_cross_types() + redeclared_bounds(rng) + scope_change_in_activation(rng) + empty_comment_faults()[:40] + call_type_matrix()
-        c += lexer_failure_then_probe(rng) + side_effects_in_subexpressions() + array_scope_matrix()[::3] + scalar_and_array_share_a_name() + pointer_to_implicit_record() + failing_record_creation() + runfile_with_handles() + declaredness_changes_per_activation()[::2] + records_with_array_fields_in_files()
+        c += identifier_targets_by_binding() + lexer_failure_then_probe(rng) + side_effects_in_subexpressions() + array_scope_matrix()[::3] + scalar_and_array_share_a_name() + pointer_to_implicit_record() + failing_record_creation() + runfile_with_handles() + declaredness_changes_per_activation()[::2] + records_with_array_fields_in_files()
         c += rng.sample(retyped_sites(rng, n_orders=1), 40) + rng.sample(nested_undeclared(rng), 20) + undeclared_field_vs_names()[::3]
         return c
     if pid == 'C02': return lexer_failure_then_probe(rng) + concat_matrix() + retyped_sites(rng, ['plus', 'minus', 'div', 'concat', 'less', 'not', 'and', 'length', 'mid'])
-    if pid == 'C03': return retyped_sites(rng, ['while', 'repeat', 'if', 'case', 'for', 'forstep', 'not']) + shadowed_condition(rng)
-    if pid == 'C04': return array_scope_matrix() + side_effects_in_subexpressions() + call_type_matrix() + scope_change_in_activation(rng) + nested_undeclared(rng) + alias_then_replace()
-    if pid == 'C05': return call_type_matrix() + array_cross_types() + retyped_sites(rng, ['store', 'byval', 'fn', 'index']) + shadowed_types()
+    if pid == 'C03': return [c for c in identifier_targets_by_binding() if '-for-' in c.meta['gen']] + retyped_sites(rng, ['while', 'repeat', 'if', 'case', 'for', 'forstep', 'not']) + shadowed_condition(rng)
+    if pid == 'C04': return identifier_targets_by_binding() + array_scope_matrix() + side_effects_in_subexpressions() + call_type_matrix() + scope_change_in_activation(rng) + nested_undeclared(rng) + alias_then_replace()
+    if pid == 'C05': return [c for c in identifier_targets_by_binding() if 'input' in c.meta['gen'] or 'assign' in c.meta['gen']] + call_type_matrix() + array_cross_types() + retyped_sites(rng, ['store', 'byval', 'fn', 'index']) + shadowed_types()
     if pid == 'C06': return array_scope_matrix() + side_effects_in_subexpressions() + redeclared_bounds(rng) + retyped_sites(rng, ['index']) + array_cross_types()
     if pid == 'C07': return shadowed_types() + alias_then_replace() + undeclared_field_vs_names() + side_effects_in_subexpressions()
     if pid == 'C08': return scope_change_in_activation(rng) + scalar_and_array_share_a_name()
@@ -664,9 +698,9 @@ def extra(pid, tier, rng):
         return c
     if pid == 'C11': return far_lines() + far_lines(runtime=True) + empty_comment_faults() + failing_record_creation()
     if pid == 'C12': return lexer_failure_then_probe(rng) + failing_record_creation() + runfile_with_handles()
-    if pid == 'C13': return far_dates_files()[0] + records_with_array_fields_in_files() + scalar_and_array_share_a_name()
+    if pid == 'C13': return [c for c in identifier_targets_by_binding() if 'getrecord' in c.meta['gen']] + far_dates_files()[0] + records_with_array_fields_in_files() + scalar_and_array_share_a_name()
     if pid == 'C14': return far_seek() + records_with_array_fields_in_files()
-    if pid == 'C15': return far_dates_files()[0] + far_dates_output()
+    if pid == 'C15': return far_dates_files()[0] + far_dates_output() + [c for c in identifier_targets_by_binding() if 'readfile' in c.meta['gen']]
     if pid == 'C16': return pedantic_tail_with_files() + side_effects_in_subexpressions() + runfile_with_handles()
     if pid == 'C17': return lexer_failure_then_probe(rng)
     if pid == 'C18': return far_dates_output()
